@@ -203,13 +203,13 @@ own status field (0), whose payload is the request's interface handle and timeou
 theorem service_bit (cfg : Cfg) (s : Srv) (f : Frame) (u : Bool) (i t : Nat) (w : Wrap) (r : Req) (raw : Bytes)
     (d' : Dev) (bs : Bytes) (hb : f.body = .send u i t w (.req r raw))
     (hf : fits cfg f = true) (hl : routedVia cfg w = none) (hr : routable cfg w = true)
-    (he : exec s.dev r = (d', some bs)) :
+    (he : execReq s.refusing s.dev r = (d', some bs)) :
     process cfg s f = ({ s with dev := d' },
       .reply (echo f f.hdr.status (Bytes.le 4 i ++ Bytes.le 2 t ++ cpfEncode [(0, []), (Generated.cpfUnconnected, bs)])))
     ∧ bs.head? = some (reqService r ||| 0x80) := by
   simp only [routable, Bool.and_eq_true] at hr
   obtain ⟨h1, h2⟩ := hr
-  refine ⟨?_, exec_head he⟩
+  refine ⟨?_, execReq_head he⟩
   simp [process, processWith_fits _ _ _ _ hf, processBody, hb, hl, h1, h2, cmServe, cmRequest, he, sendFraming]
 
 /-- **Unsupported or unroutable.**  A SendRRData request that cannot be delivered (refused route path, Unconnected
@@ -219,7 +219,7 @@ context, session handle and options -- and the session ends there. -/
 theorem unsupported_nonzero (cfg : Cfg) (s : Srv) (f : Frame) (u : Bool) (i t : Nat) (w : Wrap) (c : Cip)
     (rest : List Frame) (hb : f.body = .send u i t w c) (hf : fits cfg f = true) (hl : routedVia cfg w = none)
     (h : routable cfg w = false ∨ (∃ code p raw, c = .unknown code p raw)
-          ∨ (∃ r raw, c = .req r raw ∧ (exec s.dev r).2 = none)) :
+          ∨ (∃ r raw, c = .req r raw ∧ (execReq s.refusing s.dev r).2 = none)) :
     (process cfg s f).2 = .reply (echo f (failStatus f.hdr.status) []) ∧
     failStatus f.hdr.status ≠ 0 ∧
     (serve cfg s (f :: rest)).replies = [echo f (failStatus f.hdr.status) []] ∧
@@ -234,7 +234,7 @@ theorem unsupported_nonzero (cfg : Cfg) (s : Srv) (f : Frame) (u : Bool) (i t : 
         · simp [routable, h1, h2] at h
         · simp [cmServe, cmRequest, refuse]
         · simp only [cmServe, cmRequest]
-          cases hx : exec s.dev r with
+          cases hx : execReq s.refusing s.dev r with
           | mk d' o =>
             rw [hx] at he
             simp only at he
@@ -261,13 +261,39 @@ theorem tag_request_answered (cfg : Cfg) (s : Srv) (hwf : s.dev.WF) (f : Frame) 
     (hl : routedVia cfg w = none) (hr : routable cfg w = true) :
     ∃ bs, (process cfg s f).2 = .reply (echo f f.hdr.status (sendFraming i t bs))
       ∧ bs.head? = some (simpleService sreq ||| 0x80) ∧ (process cfg s f).1.dev.WF := by
-  obtain ⟨hwf', bs, hbs⟩ := execSimple_preserves_wf_tag s.dev hwf sreq (by cases sreq <;> simp_all [isTagService])
-  have he : exec s.dev (.simple sreq) = ((execSimple s.dev sreq).1, some bs) := by
+  obtain ⟨hwf', bs0, hbs⟩ := execSimple_preserves_wf_tag s.dev hwf sreq (by cases sreq <;> simp_all [isTagService])
+  have he0 : exec s.dev (.simple sreq) = ((execSimple s.dev sreq).1, some bs0) := by
     simp only [exec, hbs]
-  obtain ⟨h1, h2⟩ := service_bit cfg s f u i t w (.simple sreq) raw _ bs hb hf hl hr he
+  -- with or without refusing Attributes: a reply is produced, and the device is the one `exec` leaves or unchanged
+  have key : ∃ d' bs, execReq s.refusing s.dev (.simple sreq) = (d', some bs) ∧ d'.WF := by
+    rcases execReq_cases s.refusing s.dev (.simple sreq) with h | ⟨h1, bs, h2⟩
+    · exact ⟨_, bs0, by rw [h, he0], hwf'⟩
+    · refine ⟨s.dev, bs, ?_, hwf⟩
+      exact Prod.ext h1 h2
+  obtain ⟨d', bs, he, hwfd⟩ := key
+  obtain ⟨h1, h2⟩ := service_bit cfg s f u i t w (.simple sreq) raw d' bs hb hf hl hr he
   refine ⟨bs, ?_, h2, ?_⟩
   · rw [h1]; rfl
-  · rw [h1]; exact hwf'
+  · rw [h1]; exact hwfd
+
+/-- **An Attribute that refuses the store.**  A Write Tag [Fragmented] that is valid in every respect, to an Attribute
+whose data store raises on assignment, is answered in full: service|0x80, CIP status 0xFF with extended status
+0x2105, encapsulation status as in the request -- and the device is unchanged. -/
+theorem refused_store_answered (cfg : Cfg) (s : Srv) (f : Frame) (u : Bool) (i t : Nat) (w : Wrap) (r : Req)
+    (raw : Bytes) (addr : Nat × Nat × Nat) (d' : Dev) (bs : Bytes)
+    (hb : f.body = .send u i t w (.req r raw)) (hf : fits cfg f = true)
+    (hl : routedVia cfg w = none) (hr : routable cfg w = true)
+    (ht : writeTarget s.dev r = some addr) (hm : s.refusing.contains addr = true)
+    (he : exec s.dev r = (d', some bs)) (h0 : bs.getD 2 1 = 0) :
+    process cfg s f = (s, .reply (echo f f.hdr.status
+        (sendFraming i t ([reqService r + 128, 0, 255, 1, 0x05, 0x21])))) := by
+  have hx : execReq s.refusing s.dev r = (s.dev, some [reqService r + 128, 0, 255, 1, 0x05, 0x21]) := by
+    have hm' : addr ∈ s.refusing := by simpa using hm
+    have h0' : bs[2]?.getD 1 = 0 := by simpa [List.getD] using h0
+    simp [execReq, ht, hm', he, h0', encodeReply, errReply, encodeStatus, Bytes.le]
+  obtain ⟨h1, _⟩ := service_bit cfg s f u i t w r raw s.dev _ hb hf hl hr hx
+  rw [h1]
+  simp [sendFraming]
 
 /-! ## the Connection Manager's own services, and the request size limit -/
 
@@ -316,12 +342,12 @@ current device state, whatever happened to earlier routed requests. -/
 theorem routed_service_bit (cfg : Cfg) (s : Srv) (f : Frame) (u : Bool) (i t : Nat) (w inner : Wrap) (r : Req)
     (raw : Bytes) (d' : Dev) (bs : Bytes) (hb : f.body = .send u i t w (.req r raw)) (hf : fits cfg f = true)
     (hv : routedVia cfg w = some inner) (hc : connAvailable s) (hr : routable cfg inner = true)
-    (he : exec s.dev r = (d', some bs)) :
+    (he : execReq s.refusing s.dev r = (d', some bs)) :
     (process cfg s f).2 = .reply (echo f 0 (sendFraming i t bs)) ∧ bs.head? = some (reqService r ||| 0x80)
     ∧ (process cfg s f).1.dev = d' ∧ (process cfg s f).1.routeConn = true := by
   simp only [routable, Bool.and_eq_true] at hr
   obtain ⟨h1, h2⟩ := hr
-  refine ⟨?_, exec_head he, ?_⟩
+  refine ⟨?_, execReq_head he, ?_⟩
   all_goals
     simp only [process, processWith_fits _ _ _ _ hf, processBody, hb, hv]
     by_cases hcn : s.routeConn = true
@@ -341,7 +367,7 @@ request starts from a fresh one. -/
 theorem routed_failure_nonzero (cfg : Cfg) (s : Srv) (f : Frame) (u : Bool) (i t : Nat) (w inner : Wrap) (c : Cip)
     (hb : f.body = .send u i t w c) (hf : fits cfg f = true) (hv : routedVia cfg w = some inner)
     (h : ¬ connAvailable s ∨ routable cfg inner = false ∨ (∃ code p raw, c = .unknown code p raw)
-          ∨ (∃ r raw, c = .req r raw ∧ (exec s.dev r).2 = none)) :
+          ∨ (∃ r raw, c = .req r raw ∧ (execReq s.refusing s.dev r).2 = none)) :
     (process cfg s f).2 = .reply (echo f routeFailStatus []) ∧ routeFailStatus ≠ 0 ∧
     (process cfg s f).1.routeConn = false := by
   have hne : routeFailStatus ≠ 0 := by decide
@@ -359,7 +385,7 @@ theorem routed_failure_nonzero (cfg : Cfg) (s : Srv) (f : Frame) (u : Bool) (i t
           · exact absurd (Or.inl hcn) h
           · simp [routable, h1, h2] at h
           · simp [cmServe, cmRequest]
-          · cases hx : exec s.dev r with
+          · cases hx : execReq s.refusing s.dev r with
             | mk d' o =>
               rw [hx] at he
               simp only at he
@@ -383,7 +409,7 @@ theorem routed_failure_nonzero (cfg : Cfg) (s : Srv) (f : Frame) (u : Bool) (i t
               exact ⟨hd, pickNonzero_mem hp, pickNonzero_ne_zero hp⟩
             · simp [routable, h1, h2] at h
             · simp [cmServe, cmRequest]
-            · cases hx : exec s.dev r with
+            · cases hx : execReq s.refusing s.dev r with
               | mk d' o =>
                 rw [hx] at he
                 simp only at he
